@@ -21,6 +21,7 @@ import Sudachi.Model.Trie
 import Sudachi.Model.BuildIO
 import Sudachi.Model.RecycleIO
 import Sudachi.Model.Total
+import Sudachi.Model.TotalIO
 /-! Line protocol dispatcher: one case per line in, one answer per line out. -/
 namespace Driver
 
@@ -48,7 +49,7 @@ def answer (line : String) : String :=
     | "C04" => Trie.handle op rest
     | "C06" => Build.handle rest
     | "C10" => Recycle.IO.handle rest
-    | "C03" => Total.handle op rest
+    | "C03" => TotalIO.handle op rest
     | _ => "bad-op"
   | _ => "bad-op"
 
